@@ -17,9 +17,15 @@ KERNEL_TB = [
 
 
 def sh(cmd, cwd=None, timeout=3600, env=None, capture=True):
-    p = subprocess.run(cmd, cwd=cwd, shell=isinstance(cmd, str), env=env, timeout=timeout,
-                       stdout=subprocess.PIPE if capture else None, stderr=subprocess.STDOUT if capture else None,
-                       text=True, errors="replace")
+    try:
+        p = subprocess.run(cmd, cwd=cwd, shell=isinstance(cmd, str), env=env, timeout=timeout,
+                           stdout=subprocess.PIPE if capture else None, stderr=subprocess.STDOUT if capture else None,
+                           text=True, errors="replace")
+    except subprocess.TimeoutExpired as e:
+        out = e.stdout or ""
+        if isinstance(out, bytes):
+            out = out.decode("utf-8", "replace")
+        return 124, out + "\n[timed out after %s s]" % timeout
     return p.returncode, (p.stdout or "")
 
 
@@ -201,7 +207,17 @@ def run_cases(prop, pid, seed, tier, race=False):
     tmo = prop.get("timeout_thorough", 7200) if tier == "thorough" else prop.get("timeout_quick", 900)
     rc, out = sh([exe, pid, "-seed", str(seed), "-tier", tier, "-out", cases], timeout=tmo, env=GOENV)
     if rc != 0:
-        return None, "harness failed (rc=%d): %s" % (rc, out[-4000:])
+        # a harness that crashes or hangs against this tree is itself a finding: name the last case it emitted
+        last = ""
+        try:
+            with open(cases, errors="replace") as fc:
+                for line in fc:
+                    if line.strip() and not line.startswith("!"):
+                        last = line.split("\t")[0][:300]
+        except OSError:
+            pass
+        how = "did not terminate within %d s" % tmo if rc == 124 else "exited with status %d" % rc
+        return None, "harness %s (last case emitted: %s): %s" % (how, last or "none", out[-4000:])
     rc2, out2 = sh("%s %d %s > %s" % (os.path.join(ROOT, "ocaml", "driver"), prop["num"], cases, results), timeout=tmo)
     if rc2 != 0:
         return None, "driver failed (rc=%d): %s" % (rc2, out2[-2000:])
